@@ -290,6 +290,28 @@ CHECKS = {
                    "normal form), not by a theorem over all strings; Python's fromisoformat is modelled by "
                    "a hand-written grammar (calendar dates, no time zones).",
         design_ref="DESIGN.md section 6/C13"),
+    'C07': dict(
+        text="Model/TimeDate.v: pred = TimeDate.recalc/TimeSpan.recalc on the membership rules of "
+             "Interval.v, alarm_points = the times of day a block registers with cron, timetable/"
+             "bisect_left/sleeptime_us = the scheduling arithmetic of Cron._maintask. Theorems "
+             "(Props/C07.v): between two readings of the same day with no alarm point in between the "
+             "predicate does not change (so recalculating at alarm points suffices; TimeSpan changes at "
+             "range end points only); False when nothing is configured or a set is empty; sleeptime is the "
+             "forward distance incl. the 23h->0h wrap; every alarm and the 24 full hours are in the "
+             "timetable, hence a wake-up exists within one hour of any instant; bisect_left "
+             "specification. Tie: every recalc(now) result, the registered alarm times after each "
+             "(re)configuration and every scheduler iteration (reading, reload/reset, chosen wake-up, "
+             "sleep time taken from the debug log) must equal the model's. The property itself (sampled "
+             "output = predicate except within 5 ms after a boundary and within 1 h after a forward jump; "
+             "no simulation error) is decided by the Coq monitor on outputs sampled under a virtual wall "
+             "clock.",
+        technique="Coq proof (lia over lexicographic/linear time keys) + correspondence of recalc, "
+                  "registration and scheduler iterations and output monitor by vm_compute",
+        level_note="Trusted: Coq kernel/vm_compute, hand-written model tied by this run's correspondence; "
+                   "partial: the three-step sleep loop and asyncio wake-up latency are not proved, the "
+                   "claim 'output follows the clock' is checked on sampled runs (virtual days, jumps, "
+                   "reconfiguration races), DST is not modelled (TZ=UTC).",
+        design_ref="DESIGN.md section 6/C07"),
 }
 
 NOT_YET = "check not built yet in this round (planned: Coq model + theorems + correspondence, see DESIGN.md section 6)"
